@@ -22,7 +22,7 @@ SPEC = {
              "(hash of recipe or ladder parameters) that contain at least one loop or conditional."),
     "assumptions": ["documented minimum versions per construct (vlib/recipes.min_version)", "recipes from vlib/recipes.Gen are typed and definitely assigned by construction"],
     "min_evaluations": {"quick": 8000, "thorough": 80000},
-    "must_reach": ["emitted", "pt_error", "skeleton_main", "skeleton_sub", "degenerate", "random_wellformed", "catalogue", "ladder", "constants"],
+    "must_reach": ["emitted", "pt_error", "skeleton_main", "skeleton_sub", "placement_main", "placement_sub", "degenerate", "random_wellformed", "catalogue", "ladder", "constants"],
     "shard_timeout": {"quick": 2400, "thorough": 14400},
 }
 
@@ -227,6 +227,37 @@ def run_shard(shard):
                 case = {"kind": "skeleton", "where": where, "recipe": r, "version": vv, "mode": mode, "opts": [ss, fp]}
                 outcome(acc, "skeleton_" + where, case, compile_fn(pt, lambda r=r: build.build(r), mode, vv, ss, fp), wellformed=True)
                 acc.nontrivial.add(h(r))
+    # ---- (1b) first stores on one arm of a conditional whose other arm leaves the routine, loads after the join (and every other
+    # placement of a store and a load over the small skeletons): when every path to every load passes a store and the program has
+    # no dead code, it is well-formed and has to compile - in the main routine and inside a subroutine
+    import itertools
+    from .. import defassign
+    from . import c17
+    idx = 0
+    for n in range(1, 6):
+        for sk in recipes.skeletons(n):
+            nl, nc = c17.count_slots(sk)
+            if nl < 2:
+                continue
+            for leaves in itertools.product(["S0", "L0", "N"], repeat=nl):
+                if "L0" not in leaves or "S0" not in leaves:
+                    continue
+                idx += 1
+                if idx % N != S:
+                    continue
+                body, nctr = c17.place(sk, [c17.LEAF[x] for x in leaves], [c17.cond_expr("C", "app")] * nc, "app")
+                for where in ("main", "sub"):
+                    r = c17.make_recipe(body, nctr, "app", where, False)
+                    an = defassign.Analysis(r)
+                    if an.run() or an.has_dead_code:
+                        acc.counters["placement_not_wellformed"] += 1
+                        continue
+                    vv = [4, 6, 8, 10][(idx // N) % 4]
+                    ss, fp = settings[(idx // N) % len(settings)]
+                    if fp and vv < 8:
+                        fp = None
+                    case = {"kind": "placement", "where": where, "recipe": r, "version": vv, "mode": "app", "opts": [ss, fp]}
+                    outcome(acc, "placement_" + where, case, compile_fn(pt, lambda r=r: build.build(r), "app", vv, ss, fp), wellformed=True)
     # ---- (2) degenerate shapes
     for k, r in enumerate(degenerate_shapes()):
         if k % N != S:
@@ -306,7 +337,7 @@ def run_shard(shard):
 
 def replay(pt, acc, c):
     from .. import build, opcatalog
-    if c.get("kind") in ("skeleton", "degenerate", "random"):
+    if c.get("kind") in ("skeleton", "degenerate", "random", "placement"):
         ss, fp = c.get("opts", [None, None])
         outcome(acc, "replay", c, compile_fn(pt, lambda: build.build(c["recipe"]), c["mode"], c["version"], ss, fp), wellformed=True)
     elif c.get("kind") == "catalogue":
